@@ -66,6 +66,9 @@ func anyProgram(rt *rapid.T, s *vh.Session) (runCase, *gen.Builder) {
 		b.Conv.Settings.Wrap = rapid.SampledFrom([]string{"errors", "using"}).Draw(rt, "wrap-mode")
 		b.Conv.Settings.WrapPkg = b.Prog.Module + "/vwrap"
 	}
+	if b.Conv.Settings.SkipCopy && rapid.IntRange(0, 2).Draw(rt, "func-type-signature") == 0 {
+		b.FuncTypeSignature("V0")
+	}
 	if custom && !zeroMix && rapid.IntRange(0, 3).Draw(rt, "recursive-late") == 0 {
 		b.RecursiveLate("R0")
 	}
